@@ -1,15 +1,35 @@
 //! hx_c15: C15 "random access agrees with scanning".
 //! unit arm: OffsetMapper / DeletionVector against Core/Model_Deletion.v;
 //! table arm: real datasets (deletions, appends, compaction, updates; stable row ids on/off) —
-//! row_offsets_to_row_addresses (hook), Dataset::take / take_rows / take_builder / take_scan /
-//! take_blobs against Core/Model_Take.v and against the dataset's own scan (direct oracle).
+//! row_offsets_to_row_addresses (hook), Dataset::take / take_rows / take_builder / take_scan
+//! against Core/Model_Take.v and against the dataset's own scan (direct oracle);
+//! blob arm: take_blobs / take_blobs_by_indices against the blob column of a scan (direct oracle).
+//!
+//! `--sanity <mutant>` (never set by checks.d) plants a breakage so that the check's ability to
+//! detect it can be demonstrated: `mapper-returns-deleted`, `take-no-remap`.
+mod blob;
 mod e2e;
 mod unit;
 
+static SANITY: std::sync::OnceLock<String> = std::sync::OnceLock::new();
+pub fn sanity() -> &'static str {
+    SANITY.get().map(|s| s.as_str()).unwrap_or("")
+}
+
 fn main() {
     let (sub, args) = hxlib::util::Args::parse();
+    let mut it = args.rest.iter();
+    while let Some(a) = it.next() {
+        if a == "--sanity" {
+            let _ = SANITY.set(it.next().cloned().unwrap_or_default());
+        }
+    }
     let code = match sub.as_str() {
         "c15" => run(&args),
+        "probe-blob" => {
+            blob::probe();
+            0
+        }
         _ => {
             eprintln!("unknown subcommand {sub}");
             2
@@ -21,8 +41,12 @@ fn main() {
 fn run(args: &hxlib::util::Args) -> i32 {
     let mut sink = hxlib::util::Sink::new("C15", &args.out);
     let mut rng = hxlib::util::Rng::new(args.seed);
+    if !sanity().is_empty() {
+        sink.notes.push(format!("SANITY MUTANT ACTIVE: {}", sanity()));
+    }
     unit::run(args, &mut sink, &mut rng.fork());
     e2e::run(args, &mut sink, &mut rng.fork());
+    blob::run(args, &mut sink, &mut rng.fork());
     sink.finish();
     0
 }
